@@ -179,6 +179,8 @@ var clientPolicies = []policy{
 	{Name: "authkeys+store", AuthKeys: true, Store: true, WantName: true},
 	{Name: "skip", Skip: true, WantName: true},
 	{Name: "store+veto-callback", Store: true, Veto: true, WantName: true},
+	{Name: "skip+veto-callback", Skip: true, Veto: true, WantName: true},
+	{Name: "authkeys+veto-callback", AuthKeys: true, Veto: true, WantName: true},
 }
 
 var serverPolicies = []policy{
@@ -189,6 +191,8 @@ var serverPolicies = []policy{
 	{Name: "skip", Skip: true},
 	{Name: "nil-config", Nil: true},
 	{Name: "store+veto-callback", Store: true, Veto: true},
+	{Name: "skip+veto-callback", Skip: true, Veto: true},
+	{Name: "authkeys+veto-callback", AuthKeys: true, Veto: true},
 }
 
 var errVeto = errors.New("vetoed by callback")
@@ -548,11 +552,15 @@ func genC01(r *vh.Runner) {
 									authSet[p.Leaf.PublicKey] = true
 								}
 							}
+							// every class is presented twice in a row to verifiers that
+							// share one trust store: what was refused once is refused again
 							for _, p := range cls {
-								if dir == "cvs" {
-									clientVerifiesServer(r, c, pki, hidden, pol, p, expected, authorized, authSet)
-								} else {
-									serverVerifiesClient(r, c, pki, hidden, pol, p, expected, authorized, authSet, rng)
+								for again := 0; again < 2; again++ {
+									if dir == "cvs" {
+										clientVerifiesServer(r, c, pki, hidden, pol, p, expected, authorized, authSet)
+									} else {
+										serverVerifiesClient(r, c, pki, hidden, pol, p, expected, authorized, authSet, rng)
+									}
 								}
 							}
 							if seed == 0 && pol.Name == "store" {
